@@ -553,8 +553,27 @@ class Model:
     def module(self, short: str) -> ModuleInfo:
         return need(self.modules.get(short), f"module {short} not found in {PKG}")
 
+    def overriders(self, f: "FuncInfo") -> list:
+        """Methods of package classes (vendored typeguard aside) that override the method `f` in a subclass of f's class."""
+        if f.cls is None:
+            return []
+        out = []
+        for k in self.classes.values():
+            if k is f.cls or k.module.short.startswith("_typeguard") or f.name not in k.methods:
+                continue
+            if any(b is f.cls for b in self.mro(k)[1:]):
+                out.append(k.methods[f.name])
+        return out
+
     def func(self, qualname: str) -> FuncInfo:
         f = self.functions.get(qualname)
+        if f is not None and f.cls is not None and not f.module.short.startswith("_typeguard"):
+            ov = self.overriders(f)
+            if ov:
+                # which implementation runs is decided by the class of the receiver (for annotation metaclasses: at class creation); the
+                # rules read the anchor method as *the* implementation, which it no longer is
+                raise AnalysisError(f"anchor method {qualname} is overridden by {', '.join(o.qualname for o in ov)}: which implementation runs depends on the receiver's class, "
+                                    "which is not modelled")
         if f is None and qualname.count(".") == 1:
             # a module-level name re-bound to a function defined elsewhere (`name = Class.method`)
             modshort, name = qualname.split(".")
